@@ -71,3 +71,73 @@ CHECKS["C19"] = {
          "covers": ["C19.diff.end", "C19.read.hit-or-forward"], "thorough": {"max_paths": 600000}},
     ],
 }
+
+# ---- shared harness descriptors ----
+H_VOTE = {"fn": "vh_vote_step", "what": "one requestVote from an arbitrary R-state (R1,R2,R2+) with an arbitrary request; every stable-store call may fail; "
+          "both conventions for an absent stable key",
+          "bounds_quick": "N<=2 servers in the configuration (0 = bootstrap), 64-bit terms/indexes < 2^62", "bounds_thorough": "N<=3",
+          "covers": ["vote.granted", "vote.first-grant", "vote.re-grant", "vote.refused", "vote.other-candidate-same-term", "vote.stale-term", "vote.term-adopted", "vote.panic-on-term-write"]}
+H_PREVOTE = {"fn": "vh_prevote_step", "what": "one requestPreVote from an arbitrary R-state", "bounds_quick": "N<=2", "bounds_thorough": "N<=3",
+             "covers": ["prevote.granted", "prevote.refused"]}
+H_AE_TERM = {"fn": "vh_ae_term", "what": "appendEntries term handling / step-down / leader hint on a heartbeat-shaped request; stable-store failures injected",
+             "bounds": "window W=1, arbitrary terms, state in {Follower,Candidate,Leader}, transfer-candidate flag symbolic",
+             "covers": ["ae.stale-term", "ae.term.success", "ae.term.legacy-leader-field", "ae.term.panic-on-term-write"]}
+H_AE_LOG = {"fn": "vh_ae_log", "what": "appendEntries log handling: follower log F and sender log L arbitrary in a window, related by log matching; request built from L "
+            "(prev anywhere in L incl. snapshot boundary and base; duplicates; batch ending inside F's log)",
+            "bounds_quick": "window W=2 at a symbolic base, E<=2 entries, entry types Command/Noop", "bounds_thorough": "W=3",
+            "covers": ["ae.success", "ae.success-with-entries", "ae.rejected", "ae.truncated", "ae.fed-fsm"],
+            "thorough": {"max_paths": 400000}}
+
+AE_ASSUME = ["appendEntries log harness: request term = follower's current term and follower state (term handling is decided by vh_ae_term)",
+             "hypotheses LM(F,L) (log matching incl. the snapshot point), LC(L,F) (what F knows committed/applied/snapshotted is identical in the sender's log) and NI "
+             "(beyond the batch F holds nothing below the leader's commit index that disagrees with L) are ASSUMED in the pre-state; LM is shown preserved",
+             "log entries in the window are Command or Noop; configuration entries are handled by dedicated harnesses"]
+
+CHECKS["C01"] = {
+    "only": ["C01."],
+    "explanation": "C01 is decided as step lemmas (DESIGN 4.1): VOTE-ONCE (a server's durable vote in a term names one candidate; granted only after the record is durable), "
+                   "TERM-STEPDOWN (higher term => follower with that term; stale term => no effect), and the quorum glue lemma over the real quorumSize/nextConfiguration.",
+    "outside": "composition of the step lemmas into the cluster-level theorem (written argument, DESIGN 3.4); intra-server preemption; message pairing by the transport",
+    "assumptions": ["RequestVote requests carry a non-empty header ID and name their sender (Addr or Candidate non-empty)"],
+    "harnesses": [H_VOTE, H_AE_TERM],
+}
+CHECKS["C06"] = {
+    "only": ["C06."],
+    "explanation": "C06: requestVote/requestPreVote/appendEntries (term adoption) from an arbitrary R-state with every stable-store call failing independently: one vote per term, "
+                   "only to an up-to-date voting member, sticky leader, terms monotone, R1/R2 and the ghost invariant R2+ (a current-term vote record names a candidate that passed this server's log check) preserved.",
+    "outside": "torn single writes; ID-less legacy requests (skip the membership test by design)",
+    "assumptions": ["RequestVote requests carry a non-empty header ID and name their sender"],
+    "harnesses": [H_VOTE, H_PREVOTE, H_AE_TERM],
+}
+CHECKS["C14"] = {
+    "only": ["C14."],
+    "explanation": "C14: requestPreVote is a pure function of the state (FRAME: no volatile or durable field changes, no store write) and grants only to up-to-date voting members when no other leader is known.",
+    "outside": "cluster-level reconnect timing",
+    "assumptions": [],
+    "harnesses": [H_PREVOTE],
+}
+CHECKS["C03"] = {
+    "only": ["C03."],
+    "explanation": "C03 step lemmas: UPTODATE (first grant only to a candidate whose last (term,index) >= the voter's; a re-grant repeats a vote that passed the check), "
+                   "NO-TRUNC-COMMITTED (a follower never deletes at or below its commit/snapshot index).",
+    "outside": "the induction over terms (written argument); store durability contract; operator overrides",
+    "assumptions": AE_ASSUME,
+    "harnesses": [H_VOTE, H_PREVOTE, H_AE_LOG],
+}
+CHECKS["C04"] = {
+    "only": ["C04."],
+    "explanation": "C04: appendEntries on arbitrary follower/sender logs: success => log equals the sender's through the last entry sent and the batch is retained; deletion only of the suffix from the first conflicting index; "
+                   "log invariant (contiguity, cache, monotone terms) and log matching preserved.",
+    "outside": "byte content of Data (content-id equality); pairs of servers beyond receiver/sender",
+    "assumptions": AE_ASSUME,
+    "harnesses": [H_AE_LOG],
+}
+CHECKS["C02"] = {
+    "only": ["C02."],
+    "explanation": "C02: what a follower hands to its FSM from appendEntries: exactly the Command entries lastApplied+1..min(leaderCommit,lastIndex) in order, each identical to the agreed (sender) entry, none skipped, never a truncated/applied index deleted.",
+    "outside": "FSM goroutine interleaving beyond channel FIFO; snapshot bytes",
+    "assumptions": AE_ASSUME,
+    "harnesses": [H_AE_LOG],
+}
+CHECKS["C05"]["harnesses"].append(H_AE_LOG)
+CHECKS["C05"]["assumptions"] += AE_ASSUME
